@@ -20,6 +20,10 @@ RULES = [
     (r"^regroup/(-A(AND|OR)B|NOTA(AND|OR)B)$", "KF-C01-prefix-operator-captures-AND-OR"),
     (r"^regroup/-A\^B$", "KF-C01-unary-minus-before-power"),
     (r"^function/joystk_to_statement/", "KF-C04-JOYSTK-call-passes-2-of-6-arguments"),
+    (r"^layout/CLEAR200$", "KF-C08-CLEAR-comment-keeps-source-layout"),
+    (r"^layout/A1=&HFF$", "KF-C08-blank-inside-hex-literal"),
+    (r"^layout/A1=10$", "KF-C08-blank-inside-decimal-literal"),
+    (r"^layout/A1=1\.5E\+3$", "KF-C08-blank-inside-decimal-literal"),
     (r"^kinds/ecb_joystk/", "KF-C04-JOYSTK-call-passes-2-of-6-arguments"),
     (r"^kinds/ecb_hprint/numeric item", "KF-C14-HPRINT-numeric-item-gets-numeric-temporary"),
 ]
